@@ -307,3 +307,45 @@ _run_before_r8 = run
 def run(ctx):
     _run_before_r8(ctx)
     r8_no_truncating_char_casts(ctx)
+
+
+def r9_setoption_sections(ctx):
+    """setoption: the name runs to the word `value`, the value runs to the end of the line"""
+    rid = "C15.R9"
+    ctx.rule(rid, "parse_setoption takes the option name up to the token `value` (or the end) and the option value up to the end of the line: the value section is not cut at any keyword, and the name section is cut only at `value`", floor=3)
+    f = ctx.fn(rid, P + "parse_setoption")
+    cfg, ex = Cfg(f), Exprs(f)
+    calls = []
+    for b in sorted(cfg.reach):
+        t = f["blocks"][b]["term"]
+        if t["k"] == "call" and not f["blocks"][b]["cleanup"]:
+            k = t["callee"].get("key") or ""
+            if k.startswith(P):
+                consts = [x[1] for a in t["args"] for x in leaves(ex.operand(a)) if x[0] == "c" and isinstance(x[1], str)]
+                calls.append((b, k[len(P):], consts, t["line"]))
+    names = [c[1] for c in calls]
+    consume_name = [c for c in calls if c[1] == "consume" and c[2] == ["name"]]
+    consume_value = [c for c in calls if c[1] == "consume" and c[2] == ["value"]]
+    ok = len(consume_name) == 1 and len(consume_value) == 1 and cfg.dominates(consume_name[0][0], consume_value[0][0])
+    ctx.ob(rid, "keywords", ok, "" if ok else "parse_setoption does not consume `name` and then `value` (calls: %s)" % [(c[1], c[2]) for c in calls], ctx.where(f))
+    if not ok:
+        return
+    vb = consume_value[0][0]
+    before = [c for c in calls if c[1].startswith("until") and cfg.dominates(c[0], vb)]
+    after = [c for c in calls if c[1].startswith("until") and cfg.dominates(vb, c[0])]
+    ok = len(before) == 1 and before[0][1] == "until_token_or_end" and before[0][2] == ["value"]
+    ctx.ob(rid, "name-section-ends-at-value", ok,
+           "" if ok else "the option name is read with %s: it must run up to the token `value` only (an option name may contain any other word, also `name`)" % [(c[1], c[2]) for c in before],
+           ctx.where(f, before[0][3] if before else None), sample={"call": [(c[1], c[2]) for c in before]})
+    ok = len(after) == 1 and after[0][1] == "until_end"
+    ctx.ob(rid, "value-section-runs-to-the-end", ok,
+           "" if ok else "the option value is read with %s: it must run to the end of the line (a value may contain the words `name` or `value`); the rest of the line is silently dropped otherwise" % [(c[1], c[2]) for c in after],
+           ctx.where(f, after[0][3] if after else None), sample={"call": [(c[1], c[2]) for c in after]})
+
+
+_run_before_r9 = run
+
+
+def run(ctx):
+    _run_before_r9(ctx)
+    r9_setoption_sections(ctx)
